@@ -35,9 +35,16 @@ case "$ID" in
   C10|C11|C12) RACE="-race" ;;
 esac
 TAGS="-tags verif"
+# Self-audit only (tools/coveraudit.sh): VERIF_COVER_DIR=<dir> builds monitor and CLI with statement-coverage
+# instrumentation of the repository's packages and collects the counters there. Never set by MANIFEST commands.
+COVER=""
+if [ -n "${VERIF_COVER_DIR:-}" ]; then
+  mkdir -p "$VERIF_COVER_DIR"; export GOCOVERDIR="$VERIF_COVER_DIR"
+  COVER="-cover -coverpkg=gitee.com/xuesongtao/protoc-go-valid/..."
+fi
 
 build() { # $1 = extra flags
-  (cd "$VERIF_DIR/harness" && go build $MODFLAG $1 $RACE -o "$TMP/vmon" ./cmd/vmon) >"$TMP/build.log" 2>&1
+  (cd "$VERIF_DIR/harness" && go build $MODFLAG $1 $RACE $COVER -o "$TMP/vmon" ./cmd/vmon) >"$TMP/build.log" 2>&1
 }
 HOOKS=on
 if ! build "$TAGS"; then
@@ -57,7 +64,7 @@ fi
 CLI=""
 case "$ID" in
   C06|C07|C19)
-    if ! (cd "$REPO_DIR" && go build -o "$TMP/protoc-go-valid" .) >"$TMP/build_cli.log" 2>&1; then
+    if ! (cd "$REPO_DIR" && go build $COVER -o "$TMP/protoc-go-valid" .) >"$TMP/build_cli.log" 2>&1; then
       echo "INCONCLUSIVE property=$ID CLI does not build:"; tail -20 "$TMP/build_cli.log"; exit 3
     fi
     CLI="$TMP/protoc-go-valid" ;;
